@@ -262,7 +262,7 @@ def gen_case(rng, oper=None):
 
 
 def cases(rng, tier):
-    n = fw.tier_scale(tier, 6000, 60000)
+    n = fw.tier_scale(tier, 12000, 120000)
     for _ in range(n):
         yield gen_case(rng)
 
@@ -296,6 +296,8 @@ DO_FAMILY = ("do_action", "do", "do_after_next", "do_on_subscribe", "do_on_dispo
 
 
 def impl(case):
+    if case.get("op") == "multi":
+        return _multi(case)
     out = run_real(case)
     if case["oper"] in DO_FAMILY:
         # reference run for the transparency oracle: the same source, subscriber and timeline without the operator
@@ -318,6 +320,8 @@ def _acts(log, name):
 
 
 def oracle(case, out):
+    if case.get("op") == "multi":
+        return _multi_oracle(case, out)
     log = out["log"]
     oper = case["oper"]
     deliv = _delivered(log)
@@ -421,6 +425,99 @@ def oracle(case, out):
     return None
 
 
+# ------------------------------------------------------------------------------------------------ extra
+def _multi(case):
+    """Oracle-only: several subscriptions to ONE using / do_finally / finally_action observable over a cold source;
+    'per subscription': every subscription gets its own resource / its own action run, each exactly once."""
+    import reactivex
+    from reactivex import operators as ops
+    from reactivex.operators import _do
+    from reactivex.testing import ReactiveTest, TestScheduler
+
+    sched = TestScheduler()
+    rec = []
+    for t, n in case["msgs"]:
+        rec.append(ReactiveTest.on_next(t, n[1]) if n[0] == "N" else ReactiveTest.on_completed(t) if n[0] == "C"
+                   else ReactiveTest.on_error(t, InjectedError(n[1])))
+    cold = sched.create_cold_observable(*rec)
+    created, disposed, finals = [], [], []
+    current = [None]
+
+    class Res:
+        def __init__(self, i):
+            self.i = i
+
+        def dispose(self):
+            disposed.append(self.i)
+
+    def resf():
+        created.append(current[0])
+        return Res(current[0])
+
+    if case["oper"] == "using":
+        o = reactivex.using(resf, lambda r: cold)
+    elif case["oper"] == "do_finally":
+        o = cold.pipe(_do.do_finally(lambda: finals.append(int(sched.clock))))
+    else:
+        o = cold.pipe(ops.finally_action(lambda: finals.append(int(sched.clock))))
+    ends = {}
+    subs = {}
+
+    def mk_sub(i):
+        def act(s, st):
+            current[0] = i
+            subs[i] = o.subscribe(lambda v: None, lambda e: ends.setdefault(i, int(sched.clock)), lambda: ends.setdefault(i, int(sched.clock)), scheduler=sched)
+        return act
+
+    def mk_disp(i):
+        def act(s, st):
+            if i in subs:
+                ends.setdefault(i, int(sched.clock))
+                subs[i].dispose()
+        return act
+
+    for i, (ts, td) in enumerate(case["subs"]):
+        sched.schedule_absolute(ts, mk_sub(i))
+        if td is not None:
+            sched.schedule_absolute(td, mk_disp(i))
+    sched.start()
+    return {"created": created, "disposed": disposed, "finals": sorted(finals), "ends": sorted(ends.values()), "n_over": len(ends)}
+
+
+def _multi_oracle(case, out):
+    if case["oper"] == "using":
+        if sorted(out["disposed"]) != sorted(set(out["disposed"])):
+            return f"a resource was disposed twice: {out['disposed']}"
+        if len(out["disposed"]) != out["n_over"]:
+            return f"{out['n_over']} subscriptions over but {len(out['disposed'])} resources disposed"
+        if len(out["created"]) != len(case["subs"]):
+            return "not one resource per subscription"
+    elif out["finals"] != out["ends"]:
+        return f"action runs at {out['finals']} but subscriptions ended at {out['ends']}"
+    return None
+
+
+def extra(rng, tier):
+    failures = []
+    n = fw.tier_scale(tier, 300, 3000)
+    for _ in range(n):
+        msgs, t = [], 0
+        for _ in range(rng.randrange(0, 4)):
+            t += rng.choice([5, 10, 20])
+            msgs.append([t, ["N", rng.randrange(3)]])
+        if rng.random() < 0.7:
+            msgs.append([t + rng.choice([0, 10]), rng.choice([["C"], ["E", "s0"]])])
+        subs = []
+        for _ in range(rng.randrange(1, 4)):
+            ts = rng.choice([200, 205, 210, 230])
+            subs.append([ts, rng.choice([None, ts, ts + 10, ts + 20, ts + 100])])
+        case = {"op": "multi", "oper": rng.choice(["using", "do_finally", "finally_action"]), "msgs": msgs, "subs": subs}
+        why = _multi_oracle(case, _multi(case))
+        if why:
+            failures.append(fw.Failure("oracle", case, why))
+    return {"failures": failures, "coverage": {"multi_subscription_cases": n}}
+
+
 def classify(case, why):
     return None
 
@@ -471,6 +568,11 @@ def nontrivial(case, out):
 
 
 def shrink(case):
+    if case.get("op") == "multi":
+        for fld in ("msgs", "subs"):
+            for i in range(len(case[fld])):
+                c = dict(case); c[fld] = case[fld][:i] + case[fld][i + 1:]; yield c
+        return
     for fld in ("msgs", "sync", "disposes", "sub_raises", "act_raises"):
         for i in range(len(case[fld])):
             c = dict(case); c[fld] = case[fld][:i] + case[fld][i + 1:]; yield c
@@ -495,6 +597,8 @@ THEOREMS = [
     "C40.do_finally_twice_when_action_raises",
     "C40.do_finally_lost_when_subscribe_raises",
     "C40.do_transparent_unless_raise",
+    "C40.do_callbacks_once_in_order",
+    "C40.do_on_dispose_exactly_once",
     "C40.do_action_raise_becomes_error",
 ]
 RULE = ("one subscription of using / finally_action / do_finally / do_action(any subset of callbacks) / do(observer) / do_after_next / "
@@ -523,11 +627,14 @@ LEVEL_TEXT = ("Lean theorems over an executable model of using_/finally_action_/
               "disposed at most once, exactly once iff a terminal was delivered or dispose was called (at the first such event) and never "
               "without a resource; finally_action runs its action exactly once under the same condition (even if it raises) and after every "
               "downstream callback; do_finally likewise when its action does not raise; every do_* operator whose callbacks do not raise is "
-              "transparent (simulation against the operator-free pipeline: same deliveries, same source disposal, same escaping exceptions). "
+              "transparent (simulation against the operator-free pipeline: same deliveries, same source disposal, same escaping exceptions) "
+              "and its callbacks see every corresponding notification exactly once, in order, adjacent to the delivery (cbShape); "
+              "do_on_dispose's action runs exactly once under the same condition as do_finally. "
               "Proved by invariants/simulation, no bound. The model is tied to the code by differential comparison of full timed effect logs.")
 LEVEL_NOTE = ("Hypotheses that cannot be dropped (decided witnesses, reproduced on the real code): using/do_finally lose the resource/action when "
               "source.subscribe() itself raises (source terminates inside subscribe and then raises, or the subscriber's on_error raises on a "
               "failure inside subscribe); do_finally invokes a raising finally action a second time because was_invoked is set after the call. "
               "do_after_next is transparent only if the subscriber's on_next does not raise (its try covers observer.on_next). "
-              "Not proved in Lean (checked by the oracle only): the per-callback order statement 'each do_* callback sees every corresponding "
-              "notification once, in order' and exactly-once of do_on_dispose. Trusted: harness, merged same-instant order rule.")
+              "Not proved in Lean: a general bound (<= 2) on do_finally's invocations when the action raises (only the decided witness and the "
+              "oracle), and the link between the operator-free reference pipeline (do_action() without callbacks, two AutoDetachObservers) and "
+              "C01's single-observer model. Trusted: harness, merged same-instant order rule.")
